@@ -606,11 +606,21 @@ func TestDrive(t *testing.T) {
 	epochs := envInt("VERIF_EPOCHS", 3)
 	pay := envInt("VERIF_PAY", 0) == 1
 	splitK := envInt("VERIF_SPLITK", 0) == 1 // one "q" line per repetition (reproduction runs)
+	only := envInt("VERIF_ONLY", -1)          // reproduction: build the whole batch (same accounts, same hashes), query one configuration
 
 	for start := 0; start < len(cfgs); start += batch {
 		end := start + batch
 		if end > len(cfgs) {
 			end = len(cfgs)
+		}
+		if only >= 0 {
+			has := false
+			for i := start; i < end; i++ {
+				has = has || cfgs[i].Id == only
+			}
+			if !has {
+				continue
+			}
 		}
 		c := chainx.New(t, seed)
 		ts := c.TS
@@ -627,8 +637,17 @@ func TestDrive(t *testing.T) {
 		for _, b := range bs {
 			b.applyStatuses(c)
 		}
+		if only >= 0 {
+			for _, b := range bs {
+				if b.cfg.Id != only && b.dead == "" {
+					b.dead = "skipped"
+				}
+			}
+		}
 		for _, b := range bs {
-			out.Emit(map[string]interface{}{"ev": "reset", "cfg": b.cfg.Id, "dead": b.dead})
+			if b.dead != "skipped" {
+				out.Emit(map[string]interface{}{"ev": "reset", "cfg": b.cfg.Id, "dead": b.dead})
+			}
 		}
 		for k := 1; k <= epochs; k++ {
 			if p, msg := c.NextEpoch(); p {
